@@ -439,6 +439,9 @@ func (p *Project) MissingMeanTemperature(r *vh.Rng, days int) []Date {
 		if taken[i-1] || taken[i] || taken[i+1] {
 			continue
 		}
+		if d := p.Weather[i].Date; d.DOY() == 1 || (d.M == 12 && d.D == 31) {
+			continue // the adjacent day lies in another year file: what the one-file-per-year layout uses there is not specified
+		}
 		taken[i] = true
 		p.Weather[i].Tavg = none
 		out = append(out, p.Weather[i].Date)
